@@ -695,3 +695,42 @@ def t_ntv2_offsets(cx):
                       "integer field read at %s is NUM_OREC (8) or NUM_FILE (40)" % off if ok else
                       "integer field read at %s is neither NUM_OREC (8) nor NUM_FILE (40)" % off, cx.where(t["span"]))
     cx.count("T-NTV2-OFFSETS", "checks", n)
+
+
+# ---------------------------------------------------------------------------------------------------------------------
+# R-SUBGRID-KEPT (C15, C08): every sub-grid record of an NTv2 file ends up in the hierarchy
+
+@rule("R-SUBGRID-KEPT", ["C15", "C08"])
+def r_subgrid_kept(cx):
+    """In Ntv2Grid::new every pass of the loop over the sub-grid records either fails the whole decode (returns an
+    error) or stores the decoded sub-grid (`subgrids.insert`) and registers it under its parent (`push` onto the
+    parent's list): no path back to the loop header skips either - the format allows any order of the records, so
+    a record may not be dropped because of what has or has not been seen before it."""
+    name = "grid::ntv2::Ntv2Grid::new"
+    f = cx.f.fn(name)
+    n = 0
+    for lp in f.loops():
+        dec = [bb for bb, t in f.calls() if bb in lp.body and (f.callee(t) or "").endswith("subgrid::ntv2_subgrid")]
+        if not dec:
+            continue
+        n += 1
+        stores = {bb for bb, t in f.calls() if bb in lp.body and (f.callee(t) or "").endswith("BTreeMap::<K, V, A>::insert")}
+        regs = {bb for bb, t in f.calls() if bb in lp.body and (f.callee(t) or "").endswith("Vec::<T, A>::push")}
+        for what, must in (("stored in the sub-grid table", stores), ("registered under its parent", regs)):
+            # path from the decode call back to the header avoiding `must`
+            start = f.term(dec[0]).get("target")
+            seen, work, leak = set(), [start], False
+            while work:
+                x = work.pop()
+                if x in seen or x in must or x not in lp.body:
+                    continue
+                seen.add(x)
+                if x == lp.header:
+                    leak = True
+                    break
+                work.extend(f.succ[x])
+            cx.ob("R-SUBGRID-KEPT", "new/%s" % what.split()[0], not leak and bool(must),
+                  "every decoded sub-grid record is %s before the next record is read" % what if (not leak and must) else
+                  "Ntv2Grid::new can go on to the next record without the decoded sub-grid being %s: records are "
+                  "dropped depending on their order in the file" % what, cx.where(f.term(dec[0])["span"]))
+    cx.count("R-SUBGRID-KEPT", "record_loops", n)
